@@ -7,15 +7,12 @@ pub mod vsrc;
 
 pub mod c11;
 pub mod c36;
-pub mod c37;
 
 #[cfg(not(kani))]
 pub const REPLAY: &[(&str, fn(&mut vsrc::ReplaySrc))] = &[
     ("c11_next_prefix_p2", |s| c11::next_prefix_contract::<_, 2>(s)),
     ("c11_next_prefix_p3", |s| c11::next_prefix_contract::<_, 3>(s)),
     ("c11_next_prefix_p4", |s| c11::next_prefix_contract::<_, 4>(s)),
-    ("c37_select_max2", |s| c37::select::<_, 2>(s)),
-    ("c37_select_max3", |s| c37::select::<_, 3>(s)),
     ("c36_coin_step", |s| c36::coin_step(s)),
     ("c36_message_step", |s| c36::message_step(s)),
 ];
